@@ -128,13 +128,22 @@ func (f Float) MarshalJSON() ([]byte, error) {
 	num := []byte{}
 	num = strconv.AppendFloat(num, float64(f), 'E', -1, 64)
 
+	// Deal with the sign separately so that positions are the same
+	// for positive and negative numbers.
+	sign := []byte{}
+	if num[0] == '-' {
+		sign = []byte{'-'}
+		num = num[1:]
+	}
+
 	// When decimal place is missing, add it. This only happens
-	// when the number is 0.
+	// when there is a single significant digit.
 	if num[1] != '.' {
 		num = append(num[0:3], num[1:]...)
 		num[1] = '.'
 		num[2] = '0'
 	}
+	num = append(sign, num...)
 
 	// Split into two parts
 	i := bytes.IndexByte(num, 'E')
